@@ -426,6 +426,7 @@ def worker_tokens(job):
     def scenario(it):
         w = HL.World(it, prog, hist)
         w.push_all()
+        it.c06_token = None
         orc = HL.Oracle(hist, w)
         sref = install_state(it, prog, w)
         install_tokens(it, prog)
@@ -438,32 +439,34 @@ def worker_tokens(job):
         h = it.fresh('page_height', 'u32')
         limit = 1 + it.choose(2, 'limit')
         page = H.mk_struct(prog, 'types::Page', tip_block_hash=btc.bh(tip), height=h, outpoint=L.outpoint(*op))
+        tokinfo = dict(token_tip=tip, token_outpoint=list(op), token_height=h.t, stable_height=w.sh.t, limit=limit, amounts={'%d:%d' % k: t for k, t in w.val.items()})
+        it.c06_token = tokinfo
         r = it.call('get_utxos_internal', [sref, StrV(addr), SInt(0, 'u32'), some(VecV([Cell(page)])), SInt(limit, 'usize')])
         res = decode_response(prog, r)
         if 'err' in res:
             seen.add('err')
             if tip != 77 or res['err'] != 'UnknownTipBlockHash':
                 cands.add(kernel='t', role='token-with-known-tip-rejected' if tip != 77 else 'wrong-error-for-unknown-tip', model=it.model_ if it.feasible() else None,
-                          error=res['err'], tip=tip, **info)
+                          error=res['err'], tip=tip, **tokinfo, **info)
             return
         if tip == 77:
-            cands.add(kernel='t', role='unknown-tip-answered', model=None, **info)
+            cands.add(kernel='t', role='unknown-tip-answered', model=None, **tokinfo, **info)
             return
         seen.add('ok')
         exp = orc.address_view(tip, addr)
         ek = [e[0] for e in exp]
         gk = [pub_op_key(o) for o, v, hh in res['utxos']]
         if len(gk) > limit or any(k not in ek for k in gk) or len(set(gk)) != len(gk):
-            cands.add(kernel='t', role='token-answer-not-within-the-tip-view', model=it.model_ if it.feasible() else None, got=gk, view=ek, tip=tip, **info)
+            cands.add(kernel='t', role='token-answer-not-within-the-tip-view', model=it.model_ if it.feasible() else None, got=gk, view=ek, tip=tip, **tokinfo, **info)
             return
         # elements are at or after the offset: reported height <= page height
         for (o, v, hh), k in zip(res['utxos'], gk):
             m = check_unsat(it, rep, zterm(hh) > h.t)
             if m is not None:
-                cands.add(kernel='t', role='element-before-the-offset-returned', model=m, outpoint=list(k), tip=tip, **info)
+                cands.add(kernel='t', role='element-before-the-offset-returned', model=m, outpoint=list(k), tip=tip, **tokinfo, **info)
                 return
 
-    explore(prog, scenario, stats=st, on_panic=lambda it, e: cands.add(kernel='t', role='trap', model=it.model_ if it.feasible() else None, msg=str(e)[:300], **info))
+    explore(prog, scenario, stats=st, on_panic=lambda it, e: cands.add(kernel='t', role='trap', model=it.model_ if it.feasible() else None, msg=str(e)[:300], **(getattr(it, 'c06_token', None) or {}), **info))
     rep.add_stats(st, 't:arbitrary-tokens')
     if {'ok', 'err'} <= seen:
         rep.cov['witnesses'] += 1
@@ -496,13 +499,15 @@ def model_values(model):
     return out
 
 
-def native_pages(desc, thr, addr, limit, minconf, pages_at, pool=None, values=None):
+def native_pages(desc, thr, addr, limit, minconf, pages_at, pool=None, values=None, token=None):
     parents, content = desc
     paging = dict(address=addr, pages_at=list(pages_at) + [pages_at[-1]] * 30)
     if minconf:
         paging['min_confirmations'] = minconf
     if limit:
         paging['limit'] = limit
+    if token:
+        paging['token'] = token
     op = dict(op='history', parents=parents, content={str(k): v for k, v in content.items()}, threshold=thr, stable=[list(x) for x in HL.STABLE],
               pool=pool or pool_json(), paging=paging, values=values or {})
     return C.run_native([dict(ops=[op])], tag='c06')[0][-1]
@@ -582,8 +587,9 @@ def confirm(cand, known):
         doc['problems'] = cand['problems'][:4]
         return 'violation', doc
     if cand['kernel'] in ('p', 't'):
+        if cand['kernel'] == 't' and isinstance(cand.get('token_tip'), int):
+            return confirm_token(cand, doc)
         if cand['kernel'] == 't':
-            # an arbitrary token cannot be fed natively with block ids; replay the history with ordinary paging instead
             args = (cand['history'], 1, cand['address'], 1, 0, [len(cand['history'][0]) + 1])
         else:
             args = (cand['history'], cand['threshold'], cand['address'], cand['limit'], cand['min_confirmations'], cand['pages_at'])
@@ -616,6 +622,54 @@ def confirm(cand, known):
             doc['problems'] = ['page sizes %s' % sizes]
             return 'violation', doc
         return 'not-reproduced', doc
+    return 'not-reproduced', doc
+
+
+def confirm_token(cand, doc):
+    """an arbitrary page token through the real endpoint: the answer must lie within the ledger view of the named tip, at or after
+    the offset, at most `limit` elements; an unknown tip must give UnknownTipBlockHash; nothing traps"""
+    desc = cand['history']
+    n = len(desc[0]) + 1
+    th, shv = cand.get('token_height'), cand.get('stable_height')
+    rel = (th - shv) if isinstance(th, int) and isinstance(shv, int) else 0
+    rel = max(-50, min(rel, 50))
+    tok = dict(tip=cand['token_tip'], height_rel=rel, tx=cand['token_outpoint'][0], vout=cand['token_outpoint'][1])
+    vals = {k: v for k, v in (cand.get('amounts') or {}).items() if isinstance(v, int)}
+    res = native_pages(desc, 100, cand['address'], cand.get('limit') or 1, 0, [n], values=vals, token=tok)
+    pages = res.get('pages') or []
+    doc['native_pages'] = pages[:3]
+    doc['token'] = tok
+    if res.get('trap') or not pages:
+        doc['problems'] = ['native run: %s' % str(res.get('trap') or 'no page served')[:200]]
+        return ('violation' if res.get('trap') else 'not-reproduced'), doc
+    p0 = pages[0]
+    if 'trap' in p0:
+        doc['problems'] = ['the token traps the endpoint: %s' % p0['trap'][:200]]
+        return 'violation', doc
+    known_tip = 1 <= cand['token_tip'] <= n
+    if 'err' in p0:
+        if known_tip or 'UnknownTipBlockHash' not in p0['err']:
+            doc['problems'] = ['token with %s tip answered %s' % ('a known' if known_tip else 'an unknown', p0['err'][:120])]
+            return 'violation', doc
+        return 'not-reproduced', doc
+    if not known_tip:
+        doc['problems'] = ['token naming an unknown tip was answered']
+        return 'violation', doc
+    view = ledger_keys(desc, cand['token_tip'], cand['address'])
+    got = [(u[0], u[1]) for u in p0['utxos']]
+    sh_native = p0.get('stable_height', 0)
+    probs = []
+    if len(got) > (cand.get('limit') or 1):
+        probs.append('more than limit elements')
+    if any(g not in view for g in got) or len(set(got)) != len(got):
+        probs.append('answer %s is not within the UTXO set %s of tip %s' % (got, view, cand['token_tip']))
+    if any(u[3] > sh_native + rel for u in p0['utxos']):
+        probs.append('element above the offset height %s returned: %s' % (sh_native + rel, p0['utxos']))
+    if p0.get('tip') != cand['token_tip']:
+        probs.append('answer names tip %s, token named %s' % (p0.get('tip'), cand['token_tip']))
+    if probs:
+        doc['problems'] = probs
+        return 'violation', doc
     return 'not-reproduced', doc
 
 
